@@ -99,6 +99,14 @@ impl PeerSink for Sink {
     }
 }
 
+/// A value whose `Serialize` impl fails (encoder error path of broadcast_notify_json/_beve).
+struct Unencodable;
+impl serde::Serialize for Unencodable {
+    fn serialize<S: serde::Serializer>(&self, _s: S) -> Result<S::Ok, S::Error> {
+        Err(serde::ser::Error::custom("unencodable"))
+    }
+}
+
 fn tag_of(h: &PeerHandle) -> u64 {
     PROBED.with(|c| c.set(u64::MAX));
     let _ = h.send_notify(PROBE, NotifyBody::Raw(Vec::new(), BodyFormat::RawBinary));
@@ -804,11 +812,12 @@ struct Sess {
     keys: BTreeSet<String>,
     behs: BTreeMap<u64, Beh>,
     history: Vec<String>,
+    minted: u64,
 }
 
 impl Sess {
     fn new() -> Sess {
-        Sess { real: Real::new(), spec: Spec::default(), ids: BTreeSet::new(), keys: BTreeSet::new(), behs: BTreeMap::new(), history: vec![] }
+        Sess { real: Real::new(), spec: Spec::default(), ids: BTreeSet::new(), keys: BTreeSet::new(), behs: BTreeMap::new(), history: vec![], minted: 0 }
     }
     fn universe(&self) -> (Vec<u64>, Vec<String>) {
         (self.ids.iter().cloned().collect(), self.keys.iter().cloned().collect())
@@ -1012,6 +1021,145 @@ fn exec(out: &mut Out, se: &mut Sess, cfg: &Cfg, line: &str) -> (String, String,
             let sent = if log.is_empty() { "-".to_string() } else { log.iter().map(|r| format!("{}/{}:{}:{}:{}", id_of(r.tag), r.tag, hex(r.path.as_bytes()), r.fmt, hex(&r.body))).collect::<Vec<_>>().join(",") };
             let res = if got.is_empty() { "-".to_string() } else { got.iter().map(|(i, r)| format!("{}={}", i, r)).collect::<Vec<_>>().join(",") };
             (line.to_string(), format!("{} sent {} res {}", idx, sent, res), !present.is_empty())
+        }
+        "peers" if w.len() == 2 => {
+            let mut hs: Vec<(u64, u64)> = se.real.reg.peers().iter().map(|h| (h.peer_id().0, tag_of(h))).collect();
+            hs.sort();
+            let mut want: Vec<(u64, u64)> = se.spec.peers.iter().map(|p| (p.id, p.tag)).collect();
+            want.sort();
+            out.count("peers");
+            if hs != want {
+                out.oracle_fail("peers.ret.peers", &format!("peers() returned {:?} but the present peers are {:?}", hs, want), &se.history);
+            }
+            (line.to_string(), format!("{} [{}]", idx, hs.iter().map(|(i, t)| format!("{}/{}", i, t)).collect::<Vec<_>>().join(",")), !want.is_empty())
+        }
+        "isempty" if w.len() == 2 => {
+            let r = se.real.reg.is_empty();
+            out.count("isempty");
+            if r != se.spec.peers.is_empty() {
+                out.oracle_fail("peers.ret.is_empty", "is_empty() disagrees with the specification", &se.history);
+            }
+            (line.to_string(), format!("{} {}", idx, if r { "T" } else { "F" }), false)
+        }
+        "mint" if w.len() == 2 => {
+            // every clone of the registry shares one counter: mint through a fresh clone each time
+            let r = se.real.reg.clone().next_peer_id().0;
+            out.count("mint");
+            if r != se.minted {
+                out.oracle_fail("peers.ret.next_peer_id", &format!("next_peer_id returned {} after {} earlier mints", r, se.minted), &se.history);
+            }
+            se.minted += 1;
+            (line.to_string(), format!("{} {}", idx, r), true)
+        }
+        "hsend" if w.len() == 7 => {
+            let (Ok(id), Some(pathb), Ok(fmt), Some(body)) = (w[2].parse::<u64>(), unhex(w[4]), w[5].parse::<u16>(), unhex(w[6])) else { return bad(line) };
+            let Ok(path) = String::from_utf8(pathb) else { return bad(line) };
+            se.ids.insert(id);
+            let nb = match w[3] {
+                "beve" => NotifyBody::Beve(body.clone()),
+                "json" => NotifyBody::Json(body.clone()),
+                "utf8" => match String::from_utf8(body.clone()) {
+                    Ok(t) => NotifyBody::Utf8(t),
+                    Err(_) => return bad(line),
+                },
+                "raw" => match BodyFormat::try_from(fmt) {
+                    Ok(f) => NotifyBody::Raw(body.clone(), f),
+                    Err(_) => return bad(line),
+                },
+                _ => return bad(line),
+            };
+            let want_fmt: u16 = match w[3] { "beve" => 1, "json" => 2, "utf8" => 3, _ => fmt };
+            out.count(&format!("hsend.{}", w[3]));
+            match se.real.reg.get(PeerId(id)) {
+                None => {
+                    if se.spec.present(id) {
+                        out.oracle_fail("peers.ret.get", "get returned None for a present peer", &se.history);
+                    }
+                    (line.to_string(), format!("{} none", idx), false)
+                }
+                Some(h) => {
+                    se.real.log.lock().unwrap().clear();
+                    let r = h.send_notify(&path, nb);
+                    let log = se.real.log.lock().unwrap().clone();
+                    let tag = se.spec.find(id).map(|p| p.tag).unwrap_or(u64::MAX);
+                    let beh = se.behs.get(&tag).copied().unwrap_or(Beh::Ok);
+                    // direct oracle: PeerHandle::send_notify hands exactly this call to its own sink
+                    let ok = log.len() == 1 && log[0].tag == tag && log[0].path == path && log[0].fmt == want_fmt && log[0].body == body && send_class(&r) == beh.answer();
+                    if !ok {
+                        out.oracle_fail("peers.handle.send_notify", &format!("sink log {:?}, result {}", log, send_class(&r)), &se.history);
+                    }
+                    if let Beh::Rem(x) = beh {
+                        se.spec.remove(x);
+                    }
+                    let l = log.first().map(|r| format!("{}/{}:{}:{}:{}", id, r.tag, hex(r.path.as_bytes()), r.fmt, hex(&r.body))).unwrap_or_else(|| "nolog".into());
+                    (line.to_string(), format!("{} {} {}", idx, l, send_class(&r)), true)
+                }
+            }
+        }
+        "hconn" | "dbg" if w.len() == 3 => {
+            let Ok(id) = w[2].parse::<u64>() else { return bad(line) };
+            se.ids.insert(id);
+            out.count(w[0]);
+            match se.real.reg.get(PeerId(id)) {
+                None => (line.to_string(), format!("{} none", idx), false),
+                Some(h) => {
+                    if w[0] == "hconn" {
+                        let tag = se.spec.find(id).map(|p| p.tag).unwrap_or(u64::MAX);
+                        let want = se.behs.get(&tag).copied().unwrap_or(Beh::Ok) != Beh::Disc;
+                        if h.is_connected() != want {
+                            out.oracle_fail("peers.handle.is_connected", "PeerHandle::is_connected does not forward the sink's answer", &se.history);
+                        }
+                        (line.to_string(), format!("{} {}", idx, if h.is_connected() { "T" } else { "F" }), true)
+                    } else {
+                        (line.to_string(), format!("{} {}", idx, format!("{:?}", h).replace(' ', "")), true)
+                    }
+                }
+            }
+        }
+        "dbgreg" if w.len() == 2 => {
+            out.count("dbgreg");
+            (line.to_string(), format!("{} {}", idx, format!("{:?}", se.real.reg).replace(' ', "")), false)
+        }
+        "ctx" if w.len() == 4 || w.len() == 5 => {
+            use futures_util::FutureExt;
+            out.count("ctx");
+            let show = |c: &repe::CallContext<'_>| {
+                let peer = c.peer().map(|h| format!("{}/{}", h.peer_id().0, tag_of(h))).unwrap_or_else(|| "-".into());
+                let pending = c.cancelled().now_or_never().is_none();
+                format!("{} {} {} {}", hex(c.method().as_bytes()), peer, if c.is_cancelled() { "T" } else { "F" }, if pending { "pending" } else { "ready" })
+            };
+            if w[2] == "detached" && w.len() == 4 {
+                let Some(m) = unhex(w[3]).and_then(|b| String::from_utf8(b).ok()) else { return bad(line) };
+                let c = repe::CallContext::detached(&m);
+                (line.to_string(), format!("{} {}", idx, show(&c)), false)
+            } else if w[2] == "new" && w.len() == 5 {
+                let (Ok(id), Some(m)) = (w[3].parse::<u64>(), unhex(w[4]).and_then(|b| String::from_utf8(b).ok())) else { return bad(line) };
+                se.ids.insert(id);
+                match se.real.reg.get(PeerId(id)) {
+                    None => (line.to_string(), format!("{} none", idx), false),
+                    Some(h) => {
+                        let c = repe::CallContext::new(&m, &h);
+                        (line.to_string(), format!("{} {}", idx, show(&c)), true)
+                    }
+                }
+            } else {
+                bad(line)
+            }
+        }
+        "bcastfail" if w.len() == 4 => {
+            let Some(path) = unhex(w[3]).and_then(|b| String::from_utf8(b).ok()) else { return bad(line) };
+            se.real.log.lock().unwrap().clear();
+            let r = match w[2] {
+                "json" => se.real.reg.broadcast_notify_json(&path, &Unencodable).is_err(),
+                "beve" => se.real.reg.broadcast_notify_beve(&path, &Unencodable).is_err(),
+                _ => return bad(line),
+            };
+            let n = se.real.log.lock().unwrap().len();
+            out.count("bcast.encoder_error");
+            if !r || n != 0 {
+                out.oracle_fail("peers.bcast.encoder_error", &format!("encoder failed: returned Err = {}, notifications sent = {}", r, n), &se.history);
+            }
+            (line.to_string(), format!("{} {} sent {}", idx, if r { "err" } else { "ok" }, if n == 0 { "-".to_string() } else { n.to_string() }), !se.spec.peers.is_empty())
         }
         "enum" if w.len() == 5 => {
             let (Ok(depth), Ok(fold)) = (w[2].parse::<usize>(), w[3].parse::<usize>()) else { return bad(line) };
@@ -1230,8 +1378,41 @@ fn gen_history(rng: &mut Rng, n: &mut usize, len: usize, ops: &mut Vec<String>) 
             ops.push(format!("aliases {} {}", next(n), id));
         } else if r < 88 {
             ops.push(format!("len {}", next(n)));
-        } else if r < 94 {
+        } else if r < 91 {
             ops.push(format!("dump {}", next(n)));
+        } else if r < 95 {
+            // the rest of the public surface: snapshot, is_empty, id minting, PeerHandle forwarding, CallContext
+            let i = next(n);
+            let m = hex(rng.pick(&["/run_collection", "", "/é"]).as_bytes());
+            match rng.below(10) {
+                0 => ops.push(format!("peers {}", i)),
+                1 => ops.push(format!("isempty {}", i)),
+                2 => ops.push(format!("mint {}", i)),
+                3 => ops.push(format!("hconn {} {}", i, id)),
+                4 => ops.push(format!("dbg {} {}", i, id)),
+                5 => ops.push(format!("dbgreg {}", i)),
+                6 => ops.push(format!("ctx {} new {} {}", i, id, m)),
+                7 => ops.push(format!("ctx {} detached {}", i, m)),
+                8 => ops.push(format!("bcastfail {} {} {}", i, rng.pick(&["json", "beve"]), m)),
+                _ => {
+                    let present = spec.sorted_ids();
+                    let v = if !present.is_empty() && rng.chance(4, 5) { *rng.pick(&present) } else { id };
+                    let nb = rng.below(4) as usize;
+                    let (variant, fmt, body) = match rng.below(4) {
+                        0 => ("beve", 1, rng.bytes(nb)),
+                        1 => ("json", 2, b"{\"a\":1}".to_vec()),
+                        2 => ("utf8", 3, rng.pick(&["", "hi", "é"]).as_bytes().to_vec()),
+                        _ => ("raw", rng.below(4), rng.bytes(nb)),
+                    };
+                    ops.push(format!("hsend {} {} {} {} {} {}", i, v, variant, m, fmt, hex(&body)));
+                    if let Some(p) = spec.find(v) {
+                        if let Some(Beh::Rem(x)) = behs.get(&p.tag).copied() {
+                            spec.remove(x);
+                            mutated = true;
+                        }
+                    }
+                }
+            }
         } else {
             let path = *rng.pick(&["/state/changed", "", "/a b", "/é", "/x/~1y"]);
             let i = next(n);
